@@ -33,6 +33,13 @@ CLAIMED.update({
    technique=TECH + ": seeded caller histories over suspended generator frames + fault-injecting producers, CPython reference trace"),
 })
 
+CLAIMED.update({
+ "C19": dict(engine="imports", design="§3 C19",
+   text="The simulator owns the file system behind the import resolver and the arrival order of imports: 1-5 generated source modules (chains, diamonds, cycles, a shadowed copy in a second sys.path directory, __all__ / _private names) in a virtual file system are imported in seeded order and in all five statement forms by a main program in one or two (interleaved) contexts, with missing modules and names injected in main and nested positions and, in 20% of runs, EIO / torn / vanishing files; the trace (exec-once log lines, identities, values seen by each importer, names bound by star-import, exception classes, and a follow-up program run in the same context) must equal CPython importing the same files; under file-system faults only no-panic, exec-at-most-once and context-still-usable are judged.",
+   note="Trusted: rewrite R5 (os.Stat/ReadFile/Open/Getwd -> simfs in package stdlib), CPython 3.11 as reference; packages/dotted names and re-import of a module whose body raised are outside the fragment.",
+   technique=TECH + ": virtual file system with ENOENT/EIO/torn/vanish faults behind the resolver, seeded import order/form, CPython reference trace, two interleaved contexts"),
+})
+
 NA = {
  "C01": "pure function of the program text (evaluation order/grouping): no schedule, clock, fault or environment history to simulate; needs enumeration against a reference semantics",
  "C02": "which statement raises/returns is fixed by program + inputs; the unwinding loop is deterministic and single-threaded; no simulation target",
@@ -49,7 +56,6 @@ NA = {
 PENDING = {
  "C08": "engine `isolation` not built yet",
  "C17": "engine `containers` not built yet",
- "C19": "engine `imports` not built yet",
  "C20": "engine `repl` not built yet",
 }
 
